@@ -85,11 +85,15 @@ class ListChannel(object):
         self.ops += 1
 
     def send(self, data):
+        if self.closed:
+            raise EOFError("stream has been closed")
         self.out.append(data)
         if self.peer is not None:
             self.peer.on_frame(data)
 
     def poll(self, timeout):
+        if self.closed:
+            raise EOFError("stream has been closed")
         if self.inbox:
             return True
         if self.clock is not None and self.interp is not None:
